@@ -444,6 +444,22 @@ func c04Corpus(thorough bool) []c04Input {
 				all = append(all, c04Input{Dec: "rest-build", Text: string(body), Mut: "arg-" + k + "-nopayload"})
 			}
 		}
+		// every key with values of every JSON shape (empty list, nested lists, object, null, numbers, booleans)
+		shapes := []interface{}{[]interface{}{}, []interface{}{[]interface{}{}}, []interface{}{1, "x", nil}, map[string]interface{}{}, map[string]interface{}{"a": []interface{}{}}, nil, "", 0, -1, 1e300, true, false}
+		allKeys := append([]string{"bundle_ctrl_flags", "crc", "previous_node_block", "bundle_age_block", "hop_count_block", "status_report"}, keys...)
+		seenKey := map[string]bool{}
+		for _, k := range allKeys {
+			if seenKey[k] {
+				continue
+			}
+			seenKey[k] = true
+			for si, v := range shapes {
+				m := map[string]interface{}{"source": "dtn://node/app", "destination": "dtn://d/", "creation_timestamp_now": true, "lifetime": "10m", "payload_block": "p"}
+				m[k] = v
+				body, _ := json.Marshal(map[string]interface{}{"uuid": "UUID", "arguments": m})
+				all = append(all, c04Input{Dec: "rest-build", Text: string(body), Mut: fmt.Sprintf("arg-%s-shape%d", k, si)})
+			}
+		}
 		for _, body := range []string{``, `{`, `null`, `{"uuid":"UUID"}`, `{"uuid":"UUID","arguments":null}`, `{"uuid":"UUID","arguments":{"payload_block":{"a":[1,[2,[3]]]}}}`, `{"uuid":5,"arguments":7}`, `[]`} {
 			all = append(all, c04Input{Dec: "rest-build", Text: body, Mut: "body"})
 		}
